@@ -384,6 +384,7 @@ func cmdRun(args []string) int {
 
 	// ------------------------------------------------------------ merge
 	merged := core.Result{Counters: map[string]int64{}, ViolationCounts: map[string]int64{}, Exhaustive: map[string]bool{}}
+	agreeSeen := map[string]int64{}
 	shapes := map[uint64]struct{}{}
 	shapeCats := map[string]map[uint64]struct{}{}
 	inconclusive := []string{}
@@ -416,7 +417,19 @@ func cmdRun(args []string) int {
 		r := o.res
 		merged.Evaluations += r.Evaluations
 		for k, v := range r.Counters {
-			if strings.HasPrefix(k, "max.") {
+			if strings.HasPrefix(k, "agree.") {
+				// a value every worker process must report identically (fingerprints of things that may not
+				// depend on what else the process did before): the first report is kept, a differing one is a violation
+				if prev, seen := agreeSeen[k]; !seen {
+					agreeSeen[k] = v
+					merged.Counters[k] = v
+				} else if prev != v {
+					key := *prop + "|differs-between-processes|" + strings.TrimPrefix(k, "agree.")
+					merged.ViolationCounts[key]++
+					merged.Violations = append(merged.Violations, core.Violation{Key: key, Monitor: "cross-process", Case: 0,
+						Detail: fmt.Sprintf("worker processes that used the library in different orders report different fingerprints for %s (%x vs %x): the result depends on what the process did before", strings.TrimPrefix(k, "agree."), uint64(prev), uint64(v))})
+				}
+			} else if strings.HasPrefix(k, "max.") {
 				if v > merged.Counters[k] {
 					merged.Counters[k] = v
 				}
